@@ -101,6 +101,25 @@ CLAIMED = {
             'independent of read() chunking (shared with C20); thorough tier adds clang\'s definite-uninitialised-use dataflow over every unit. Necessary conditions of '
             'reproducibility; other undefined behaviour is not decided.',
             'static analysis: whole-program def/use of members, type-based container rule, interprocedural taint from clock sources to branch conditions, seed provenance rule', ''),
+    'C01': ('other',
+            'Static: the clause templates of every Tseitin gate encoder are extracted from the source by a special-purpose interpreter and every emitted clause is proved, by '
+            'exhaustive truth table over the template (arities 1..4 for n-ary gates), to be a consequence of the gate definition; dispatch pairs each connective with its own '
+            'encoder and pushes all children; top-level emitters and literal signs are exact; let bindings are parsed before any is inserted; SatELite elimination never '
+            'touches a frozen variable (code no baseline test executes). Necessary conditions only: conflict analysis, theory explanations, preprocessing and the theory '
+            'solvers are value-dependent and not decided.',
+            'static analysis: clause-template extraction by abstract interpretation of the encoders + exhaustive propositional check of the template; guard/dominance rules', ''),
+    'C02': ('other',
+            'Static: the extracted clause templates are complete (they imply the gate definition); every model-found exit of the CDCL loop, the lookahead loop and the '
+            'propagate wrapper is preceded on every path by a complete theory check of the final assignment (path-sensitive walk, trail-changing calls clear the fact); '
+            'checkTheory answers Decide for a complete call only after asking the theory; `complete` is forwarded unchanged; LA runs its integrality check on the complete '
+            'path; no check can answer UNKNOWN; difference-logic constants are converted exactly. Completeness of the theory solvers themselves is not decided.',
+            'static analysis: clause-template extraction + truth table; path-sensitive MUST-PRECEDE walk over the structured mini-AST; forwarding/dataflow rules', ''),
+    'C03': ('other',
+            'Static: model extension to eliminated variables on every sat path of the simplifying solver and single-writer of the reconstruction stack; frozen-variable '
+            'guards; every engine copies the final assignment into the persistent model vector and the Boolean model is read only from it; the theory model is computed '
+            'before clearSearch() under the same predicate that guards get-model and is forwarded to every scheduled solver; model queries throw outside the sat state. '
+            'Whether the computed values are right is not decided.',
+            'static analysis: ordering (MUST-PRECEDE), who-writes/who-reads and guard rules over the type-checked AST', ''),
 }
 
 NOT_APPLICABLE = {
